@@ -858,6 +858,30 @@ fn main() {
             }
         }
     }
+    // ---- phase K: symbols that NFKC rewrites (a ligature -> two letters, a spacing accent -> a space
+    // and a combining mark): input, prediction and target go through the same normalisation, so every
+    // law of the statement holds for them as for any other text. Units follow phase J's.
+    {
+        let nk = strings(&["\u{fb01}", "a", " ", "\u{b4}"], run.pick(2, 3));
+        run.bounds.insert("nfkc_phase".into(), json!(format!("all triples of the {} strings over [ligature fi, a, space, U+00B4] with at most {} symbols: spelling singletons, whitespace singletons, mean edit distances of all pairs; x use_graphemes", nk.len(), run.pick(2, 3))));
+        let base_k = sp.end + (sequences(2, run.pick(5, 6)).len() + strings(&WIDE_ALPHA, run.pick(2, 3)).len() + tu_verif::enumerate::threshold_lengths(run.pick(6, 8)).len()) as u64;
+        for (ii, i) in nk.iter().enumerate() {
+            if !run.unit(base_k + ii as u64) {
+                continue;
+            }
+            for p in &nk {
+                for t in &nk {
+                    let tr: Tr = [i, p, t];
+                    for g in [false, true] {
+                        eval_single(&mut run, Kind::Spelling, tr, g, true);
+                        for m in 0..3 {
+                            eval_single(&mut run, Kind::Whitespace(m), tr, g, true);
+                        }
+                    }
+                }
+            }
+        }
+    }
     // ---- phase J: long sequences (word counts around the powers of two a size threshold would sit
     // at): the target is a repeated word pattern, the input has one wrong word at the start, in the
     // middle or at the end, the prediction is the target, the input, or has a different wrong word
